@@ -41,17 +41,33 @@ def window_toggle_(
         _, window = args
         return window
 
-    return openings.pipe(
-        ops.group_join(
-            source,
-            closing_mapper,
-            # A source element only belongs to the windows that are open when
-            # it arrives: its duration must end at once, also when a scheduler
-            # was passed to subscribe().
-            lambda _: empty(ImmediateScheduler.singleton()),
-        ),
-        ops.map(mapper),
-    )
+    def subscribe(
+        observer: abc.ObserverBase[Observable[_T]],
+        scheduler: abc.SchedulerBase | None = None,
+    ) -> abc.DisposableBase:
+        # group_join ignores the completion of its right source, so the
+        # windows still open when the source completes are closed here.
+        source_done: Subject[Any] = Subject()
+
+        def closing(value: Any) -> Observable[Any]:
+            return closing_mapper(value).pipe(ops.take_until(source_done))
+
+        def on_source_completed() -> None:
+            source_done.on_next(None)
+
+        return openings.pipe(
+            ops.group_join(
+                source.pipe(ops.do_action(on_completed=on_source_completed)),
+                closing,
+                # A source element only belongs to the windows that are open
+                # when it arrives: its duration must end at once, also when a
+                # scheduler was passed to subscribe().
+                lambda _: empty(ImmediateScheduler.singleton()),
+            ),
+            ops.map(mapper),
+        ).subscribe(observer, scheduler=scheduler)
+
+    return Observable(subscribe)
 
 
 @curry_flip
